@@ -86,6 +86,31 @@ def cisco_af(t, rnd):
     return t
 
 
+# keyed by the vendor families whose OWN syntax the header belongs to (a fact about the devices, not read off the formatter classes)
+FOREIGN = {("cisco",): [["address-family", "ipv4"], ["address-family", "ipv6", "unicast"]],
+           ("huawei", "h3c"): [["xpl", "route-filter", "f1"], ["xpl", "as-path-list", "l1"]],
+           ("iosxr",): [["route-policy", "rp1"], ["prefix-set", "ps1"], ["if", "x_y", "then"]]}
+
+
+def foreign_blocks(t, rnd, vendor):
+    """block headers that are syntax for ANOTHER vendor family (Cisco `address-family`, Huawei `xpl ...`, IOS-XR `route-policy`) are ordinary
+    rows everywhere else: a block with children in the middle of the tree, followed by rows at its own level"""
+    heads = [h for owners, hs in FOREIGN.items() if vendor not in owners for h in hs]
+    if not heads or not t:
+        return t
+    t = list(t)
+    blk = {"row": rnd.choice(heads), "kids": [{"row": ["neighbor", "x"], "kids": [{"row": ["peer", "b1"], "kids": []}] if rnd.random() < 0.4 else []},
+                                             {"row": ["alpha", "b1"], "kids": []}]}
+    tail = {"row": ["after", rnd.choice(["b1", "alpha"])], "kids": []}
+    if rnd.random() < 0.5 or not any(n["kids"] for n in t):
+        k = rnd.randrange(len(t) + 1)
+        t[k:k] = [blk, tail]
+    else:
+        host = rnd.choice([n for n in t if n["kids"]])
+        host["kids"] = [blk, tail] + list(host["kids"])
+    return t
+
+
 def iosxr_qos(t, rnd):
     """IOS-XR sub-domain: QoS blocks end with an `end-policy-map` / `end-class-map` row, which is an ordinary last child in annet's trees
     (only `end-set`, `endif`, `end-policy` are terminators of the policy language)"""
@@ -144,9 +169,12 @@ def run(ctx):
     def observe(tag, vendor, tj):
         # the indentation unit is an option of the entry point (`annet gen --indent`): default, four blanks, a tab, one blank
         unit = {4: "    ", 3: "\t", 2: " "}.get(len(recs) % 7)
-        fmt = reg[vendor].make_formatter(indent=unit) if unit is not None else reg[vendor].make_formatter()
+        # the formatter `annet gen` / `annet diff` use for a box: the one of the vendor its hardware model resolves to
+        model = E.MODELS[vendor][(len(recs) // 7) % len(E.MODELS[vendor])]
+        vend = reg.match(E.hwview(model, ""))
+        fmt = vend.make_formatter(indent=unit) if unit is not None else vend.make_formatter()
         t = cases.tree(tj)
-        rec = {"id": "%s-%s-%d" % (tag, vendor, len(recs)), "vendor": vendor, "t": tj, "indent": vendor in INDENT_FAMILY}
+        rec = {"id": "%s-%s-%d" % (tag, vendor, len(recs)), "vendor": vendor, "model": model, "formatter": type(fmt).__name__, "t": tj, "indent": vendor in INDENT_FAMILY}
         try:
             text = fmt.join(t)
             t2 = tabparser.parse_to_tree(text, fmt.split)
@@ -179,6 +207,8 @@ def run(ctx):
             tj = rnd_tree(rnd, 0, rnd.choice([2, 3, 4, 5]), 3, WORDS_ASR if v == "iosxr" else WORDS)
             if v in ("cisco", "nexus", "iosxr") and rnd.random() < 0.3:
                 tj = cisco_af(tj, rnd) if v == "cisco" else (iosxr_qos(tj, rnd) if v == "iosxr" else tj)
+            elif rnd.random() < 0.25:
+                tj = foreign_blocks(tj, rnd, v)
             if v in ("juniper", "ribbon") and rnd.random() < 0.3:
                 tj = juniper_annot(tj, rnd)
             observe("rnd", v, tj)
